@@ -150,16 +150,20 @@ class C16(Driver):
         """unix datagram socket: 1-3 sender fibers, one receiver; every datagram is a distinct slice of the
         sender's tag stream, so a received datagram names the send it came from"""
         senders = []
+        big = r.random() < 0.4      # datagrams beyond the 4096-byte chunk the stream reader works in
+        if big:
+            knobs = dict(knobs, sock_buf=262144)
         for w in range(r.randint(1, 3)):
             off, grams = 0, []
             for _ in range(r.randint(1, 8)):
-                n = r.choice([1, 2, 16, 100, 512, 1000, 2000])
+                n = r.choice([1, 2, 16, 100, 512, 1000, 2000] if not big else
+                             [1, 100, 2000, 4095, 4096, 4097, 6000, 8192, 8193, 20000, 60000])
                 grams.append({"off": off, "n": n, "sleep": r.choice([0, 0, 0, 1])})
                 off += n + r.choice([0, 3])
             senders.append({"w": 100 + w, "grams": grams})
         total = sum(len(x["grams"]) for x in senders)
         return {"property": "C16", "knobs": knobs, "mode": "dgram", "senders": senders,
-                "recv_buf": r.choice([2048, 4096, 65536]), "recvs": total + r.choice([0, 0, 1]), "sds": [], "tasks": [],
+                "recv_buf": 65536 if big else r.choice([2048, 4096, 65536]), "recvs": total + r.choice([0, 0, 1]), "sds": [], "tasks": [],
                 "flavour": "plain"}
 
     def render_dgram(self, plan):
@@ -170,7 +174,7 @@ class C16(Driver):
         A("  (for i 0 %d" % plan["recvs"])
         A("    (def b @\"\")")
         A("    (def [ok v] (protect (ev/with-deadline 0.5 (net/recv-from srv %d b))))" % plan["recv_buf"])
-        A("    (if ok (sim/ev :dg (length b) %s)" % " ".join("(sim/locate %d b 0 20000)" % x["w"] for x in plan["senders"]))
+        A("    (if ok (sim/ev :dg (length b) %s)" % " ".join("(sim/locate %d b 0 600000)" % x["w"] for x in plan["senders"]))
         A("      (do (sim/ev :rxerr v) (break))))")
         A("  (sim/ev :rxdone))")
         for i, sn in enumerate(plan["senders"]):
